@@ -13,6 +13,7 @@ CONSTANTS
   MaxFail = 0
   MaxReq = 0
   MaxLook = 0
+  MaxLag = 0
   SharedTx = FALSE
   Boots = TRUE
   Profile = "live"
